@@ -86,8 +86,36 @@ func init() {
 				var mult int64 = -1
 				lenOK := false
 				if iff, ok := l.head.Instrs[len(l.head.Instrs)-1].(*ssa.If); ok {
-					if c, ok := iff.Cond.(*ssa.BinOp); ok && c.Op == token.LSS {
-						bound := c.Y
+					c, _ := iff.Cond.(*ssa.BinOp)
+					var bound ssa.Value
+					if c != nil && c.Op == token.LSS {
+						bound = c.Y
+					}
+					// counting down: `for n := bound; n > 0; n--`
+					if c != nil && c.Op == token.GTR {
+						if z, isZ := constInt(c.Y); isZ && z == 0 {
+							if phi, isPhi := c.X.(*ssa.Phi); isPhi && phi.Block() == l.head {
+								okStep := true
+								var init ssa.Value
+								for i, e := range phi.Edges {
+									if l.body[l.head.Preds[i]] {
+										st, isSub := e.(*ssa.BinOp)
+										if !isSub || st.Op != token.SUB || st.X != ssa.Value(phi) {
+											okStep = false
+										} else if k, isK := constInt(st.Y); !isK || k != 1 {
+											okStep = false
+										}
+									} else {
+										init = e
+									}
+								}
+								if okStep && init != nil {
+									bound = init
+								}
+							}
+						}
+					}
+					if bound != nil {
 						mult = 1
 						if m, isM := bound.(*ssa.BinOp); isM && m.Op == token.MUL {
 							if kk, okk := constInt(m.Y); okk {
